@@ -42,6 +42,9 @@ def tasks(tier, seed):
         for c in range(1, nmax + 1):
             for eng in ('py', 'c'):
                 ts.append({'harness': eng + '/affinity', 'eng': eng, 'r': r, 'c': c, 'est': 2 ** (r * c) * (3 if eng == 'c' else 1)})
+    # longer series with a narrow window: the shifted regions of the compact layout exist; tau = 0 keeps this a single path
+    for r, c in ((5, 5), (6, 6), (6, 5), (5, 6)) + (((7, 7), (8, 7)) if tier == 'thorough' else ()):
+        ts.append({'harness': 'c/affinity', 'eng': 'c', 'r': r, 'c': c, 'narrow': True, 'est': 500})
     for r in range(2, (3 if tier == 'quick' else 4) + 1):
         ts.append({'harness': 'py/localconcurrences', 'eng': 'lc', 'r': r, 'c': r, 'est': 5 ** r})
     for t in ts:
@@ -50,7 +53,7 @@ def tasks(tier, seed):
     return ts
 
 
-def oracle(a, b, r, c, window, gamma, df, pen, only_triu):
+def oracle(a, b, r, c, window, gamma, df, pen, only_triu, TAU=TAU, DELTA=DELTA):
     """matrix of (kind, term): kind in 'ninf' | 'val'"""
     inb = spec.band_fn(r, c, window)
     W = [[('ninf', None)] * (c + 1) for _ in range(r + 1)]
@@ -122,6 +125,10 @@ def run_task(cfg):
         from engine import irsym, ckern
         irmod = irsym.module()
     wins = [None, 1, 2] + ([3] if tier == 'thorough' else [])
+    tau_t, delta_t = TAU, DELTA
+    if cfg.get('narrow'):
+        wins = [2, 3]
+        tau_t, delta_t = 0.0, 0.0
     for w in wins:
         if w is not None and w > max(r, c):
             continue
@@ -134,8 +141,8 @@ def run_task(cfg):
                         continue
                     o = {'window': w, 'gamma': gamma, 'df': df, 'pen': pen, 'triu': triu}
                     meta = {'harness': cfg['harness'], 'eng': eng, 'r': r, 'c': c, 'opts': jnum(o)}
-                    sy = dict(syms, tau=TAU, delta=DELTA, P=P if pen else None)
-                    W = oracle(a, b, r, c, w, gamma, df, P if pen else 0, triu)
+                    sy = dict(syms, tau=None if cfg.get('narrow') else TAU, delta=None if cfg.get('narrow') else DELTA, P=P if pen else None)
+                    W = oracle(a, b, r, c, w, gamma, df, P if pen else 0, triu, TAU=(TAU if not cfg.get('narrow') else smt.rv(0)), DELTA=(DELTA if not cfg.get('narrow') else smt.rv(0)))
                     s1 = pysym.objarray([SReal(x) for x in a])
                     s2 = pysym.objarray([SReal(x) for x in b])
                     if eng == 'py':
@@ -153,7 +160,7 @@ def run_task(cfg):
                             if pen:
                                 cs['penalty'] = P
                             wp = ckern.warping_paths(irmod, mode, cs, keep_int_repr=True, psi_neg=False, fill=NEG,
-                                                     affinity=(triu, float(gamma), TAU, DELTA, float(df)))
+                                                     affinity=(triu, float(gamma), tau_t, delta_t, float(df)))
                             return ckern.full_matrix(wp, affinity=True)
                     ex = Explorer(assume, max_paths=1500, stats=stats)
                     for p in ex.explore(run):
@@ -300,7 +307,7 @@ def replay(cex):
     b = [float(inp['b%d' % j]) for j in range(c)]
     w = None if o['window'] is None else int(o['window'])
     gamma, df = float(o['gamma']), float(o['df'])
-    tau, delta = float(inp['tau']), float(inp['delta'])
+    tau, delta = float(inp.get('tau', 0) or 0), float(inp.get('delta', 0) or 0)
     pen = float(inp['P']) if o['pen'] else None
     triu = bool(o['triu'])
     try:
